@@ -713,7 +713,7 @@ const c10DuelCases = c10Alphabet * c10Alphabet * 2
 
 func c10DuelTrials(tier string) int {
 	if tier == "thorough" {
-		return 40000
+		return 20000
 	}
 	return 1500
 }
@@ -804,6 +804,7 @@ func c10Duel(c *core.Ctx, k int) {
 		wake[1] <- true
 		if t%256 == 1 {
 			watchdog.Reset(90 * time.Second) // (covers the next 256 trials)
+			core.Beat()
 		}
 		for i := 0; i < 2; i++ {
 			select {
@@ -1194,7 +1195,7 @@ func init() {
 			"At every switch a VerifDump snapshot decides 'writes only inside the critical section' (content, configuration slot, lock bookkeeping), capacity and the presence of the configuration record; deadlock = no enabled worker; each history (call/return stamps + final read) is checked by porcupine against the sequential list model. " +
 			"stress: 3..7 free-running goroutines x 2..4 ops with yields injected at lock.want, histories checked by porcupine; the whole run executes under the Go race detector and every report is classified by the registered address it touches (slice header / configuration record field / elsewhere) and by the reading function. " +
 			"hammer (480 / 12 000 runs): 1-3 goroutines cycle a stack of P+2 unique values (Pop then Push of the popped value) while others Replace position 0 or Swap(0,1), 300-1200 iterations each; since at least two values are present in every sequential order, every Pop/Replace/Swap must succeed, and at the end length and content are conserved (unique values). " +
-			"duels (338 pairs: every ordered pair of the 13 mutators x LIFO/FIFO; 1 500 / 40 000 trials each): two long-lived goroutines perform the two calls on one stack, released together by a spin barrier with a sweeping skew; each trial must end in one of the two sequential outcomes (return values and final content). " +
+			"duels (338 pairs: every ordered pair of the 13 mutators x LIFO/FIFO; 1 500 / 20 000 trials each): two long-lived goroutines perform the two calls on one stack, released together by a spin barrier with a sweeping skew; each trial must end in one of the two sequential outcomes (return values and final content). " +
 			"non-trivial = program for which at least two different interleavings were executed, or a completed stress history; distinct = program text.",
 		Assumptions: []string{
 			"interleavings are explored at lock-acquisition granularity; instruction-level interleavings inside a block are visible only to the race detector, and only when the stress run produces them",
